@@ -146,7 +146,7 @@ func checkIncludes(j *job.Job, s *job.Sink, c int64, r *rand.Rand) {
 	types := []string{"int8", "string", "boolean", "uint32"}
 	var texts []string
 	for i, d := range revs {
-		texts = append(texts, fmt.Sprintf("submodule s { belongs-to m { prefix m; } revision %s; typedef st { type %s; } leaf mark%d { type st; } }", d, types[i], i))
+		texts = append(texts, fmt.Sprintf("submodule s { belongs-to m { prefix m; } revision %s; typedef st { type %s; } leaf mark%d { type st; } augment \"/m:box\" { leaf aug%d { type st; } } }", d, types[i], i, i))
 	}
 	latest := 0
 	for i, d := range revs {
@@ -160,7 +160,7 @@ func checkIncludes(j *job.Job, s *job.Sink, c int64, r *rand.Rand) {
 		want = r.Intn(n)
 		inc = fmt.Sprintf("include s { revision-date %s; }", revs[want])
 	}
-	texts = append(texts, fmt.Sprintf("module m { namespace \"urn:m\"; prefix m; %s include o; leaf top { type st; } }", inc))
+	texts = append(texts, fmt.Sprintf("module m { namespace \"urn:m\"; prefix m; %s include o; leaf top { type st; } container box { } }", inc))
 	// a sibling submodule that uses the typedef too: it sees it through the module, so in
 	// the revision the module includes
 	texts = append(texts, "submodule o { belongs-to m { prefix m; } leaf viaother { type st; } typedef ot { type m:st; } leaf viaother2 { type ot; } }")
@@ -207,6 +207,12 @@ func checkIncludes(j *job.Job, s *job.Sink, c int64, r *rand.Rand) {
 		}
 		e := yang.ToEntry(m)
 		for i := range revs {
+			// what the revisions augment into the module: that of the included one, no other
+			if box := e.Dir["box"]; box != nil {
+				if _, there := box.Dir[fmt.Sprintf("aug%d", i)]; there != (i == want) {
+					bad("include-augment-of-wrong-revision", fmt.Sprintf("load order %v: %q: the node that the augment of s@%s brings: present=%v", p, inc, revs[i], there))
+				}
+			}
 			_, present := e.Dir[fmt.Sprintf("mark%d", i)]
 			if present != (i == want) {
 				bad("include-merges-wrong-revision", fmt.Sprintf("load order %v: %q: data node of s@%s present=%v", p, inc, revs[i], present))
